@@ -58,6 +58,7 @@ KF = {
     "strftime": "KF-C01-strftime-format",
     "waitjob": "KF-C01-wait-after-failed-job",
     "casenest": "KF-C01-case-backtracking",
+    "heredoc": "KF-C01-heredoc-empty-tag",
 }
 
 # ------------------------------------------------------------------ running the harness (resumable)
@@ -65,7 +66,7 @@ KF = {
 
 def _limit():
     try:
-        resource.setrlimit(resource.RLIMIT_AS, (4 << 30, 4 << 30))
+        resource.setrlimit(resource.RLIMIT_AS, (3 << 30, 3 << 30))
     except Exception:
         pass
 
@@ -381,7 +382,7 @@ def build_cores(ctx, rng):
     # ---- history display (the number of entries is read back from the code: `history` without argument first)
     c = Core("history")
     for (count, mx) in G.history_cases(rng, 160 if big else 70):
-        script = "".join("history -s c%d; " % k for k in range(count)) + "history; echo ===; history" + ("" if mx is None else " %s" % mx)
+        script = "HISTFILE=/dev/null; history -c; " + "".join("history -s c%d; " % k for k in range(count)) + "history; echo ===; history" + ("" if mx is None else " %s" % mx)
         mval = None
         if mx is not None:
             try:
@@ -449,7 +450,9 @@ def run_cores(ctx, cores):
     stats = {}
     xcheck = []
     evals = 0
+    import time
     for c in cores:
+        tc = time.time()
         items = c.items
         # oracle inputs (capitalize)
         if any(it.get("oracle") for it in items):
@@ -543,6 +546,7 @@ def run_cores(ctx, cores):
                 if k == "1" and got == o and kid:
                     v["known"] = kid
                 specv.append(v)
+        st["seconds"] = round(time.time() - tc, 1)
         stats[c.name] = st
     return evals, mism, specv, stats, xcheck
 
@@ -587,7 +591,7 @@ KNOWN_EXPLORE = [
     (KF["intappend"], "brush-core/src/variables.rs::assign_at_index", "add with overflow", lambda s: "+=" in s),
     (KF["arraykeys"], "brush-core/src/variables.rs::update_indexed_array_from_literals", "add with overflow",
      lambda s: "18446744073709551615" in s),
-    (KF["capitalize"], "brush-core/src/variables.rs::apply_value_transforms", "char boundary",
+    (KF["capitalize"], "brush-core/src/variables.rs::apply_value_transforms", "boundary",
      lambda s: re.search(r"-[a-zA-Z]*c", s) and any(ord(ch) > 127 for ch in s)),
     (KF["history"], "brush-builtins/src/history.rs::display_history", "subtract with overflow", lambda s: "history" in s),
     (KF["ionumber"], "brush-parser/src/parser/peg.rs::io_number", "ParseIntError", lambda s: re.search(r"\d{10,}[<>]", s)),
@@ -612,13 +616,23 @@ def known_hang(script):
             return KF["charseq"]
     if len(re.findall(r"\bcase\b", script)) >= 12:
         return KF["casenest"]
+    if re.search(r"""<<-?[ \t]*(''|"")""", script):
+        return KF["heredoc"]
     return None
 
 
+_LOOPWORD = re.compile(r"\b(while|until|for|select)\b")
+
+
 def bash_terminates(script, timeout=5):
+    """False when bash does not finish either, or when the comparison is inconclusive: the script contains a loop and bash
+    stops early with an error (a mutant that bash rejects as a syntax error may legitimately loop forever in brush,
+    which accepts e.g. extglob patterns that bash does not)"""
     try:
-        subprocess.run(["/usr/bin/bash", "-c", script], stdin=subprocess.DEVNULL, stdout=subprocess.DEVNULL,
-                       stderr=subprocess.DEVNULL, timeout=timeout, cwd=os.path.join(core.SCRATCH, "c01-cwd"), preexec_fn=_limit)
+        p = subprocess.run(["/usr/bin/bash", "-c", script], stdin=subprocess.DEVNULL, stdout=subprocess.DEVNULL,
+                           stderr=subprocess.DEVNULL, timeout=timeout, cwd=os.path.join(core.SCRATCH, "c01-cwd"), preexec_fn=_limit)
+        if p.returncode != 0 and _LOOPWORD.search(script):
+            return False
         return True
     except subprocess.TimeoutExpired:
         return False
@@ -700,14 +714,16 @@ def shrink(script, still_fails, budget=60):
 
 def explore(ctx, rng, scale):
     """whole-pipeline exploration; returns (evaluations, spec_violations, stats)"""
+    import time
     specv = []
     stats = {}
     evals = 0
+    tp = [time.time()]
     inproc, procs = G.scripts(rng, scale)
     # (1) in-process under catch_unwind
     res = run_cases(ctx, [["sh", s, o] for (s, o) in inproc], timeout_ms=8000)
     evals += len(inproc)
-    st = {"scripts": len(inproc), "panics": 0, "timeouts": 0, "crashes": 0, "nonterminating_in_bash_too": 0, "status_nonzero": 0}
+    st = {"scripts": len(inproc), "panics": 0, "timeouts": 0, "crashes": 0, "nonterminating_in_bash_too_or_inconclusive": 0, "status_nonzero": 0}
     suspects = []
     for (s, o), line in zip(inproc, res):
         r = parse_sh(line)
@@ -745,7 +761,7 @@ def explore(ctx, rng, scale):
         else:
             kid = known_hang(s)
             if r[0] == "T" and not kid and not bash_terminates(s):
-                st["nonterminating_in_bash_too"] += 1
+                st["nonterminating_in_bash_too_or_inconclusive"] += 1
                 continue
             if r[0] == "C" and not kid:
                 # the process died (abort / OOM / exit): confirm through the CLI binary
@@ -753,17 +769,18 @@ def explore(ctx, rng, scale):
                 if rr[0] == "R":
                     continue
                 if rr[0] == "T" and not bash_terminates(s):
-                    st["nonterminating_in_bash_too"] += 1
+                    st["nonterminating_in_bash_too_or_inconclusive"] += 1
                     continue
             v = {"input": {"script": s[:4000], "opts": o},
                  "why": "the in-process run %s" % ("did not finish within 8 s although bash finishes" if r[0] == "T" else "killed the harness process")}
             if kid:
                 v["known"] = kid
             specv.append(v)
+    tp.append(time.time())
     # (2) process level through vbrush
     res = run_vbrush(ctx, procs, timeout=10)
     evals += len(procs)
-    st = {"scripts": len(procs), "panics": 0, "timeouts": 0, "signals": 0, "nonterminating_in_bash_too": 0}
+    st = {"scripts": len(procs), "panics": 0, "timeouts": 0, "signals": 0, "nonterminating_in_bash_too_or_inconclusive": 0}
     for s, r in zip(procs, res):
         if r[0] == "P":
             st["panics"] += 1
@@ -781,7 +798,7 @@ def explore(ctx, rng, scale):
             st["timeouts"] += 1
             kid = known_hang(s)
             if not kid and not bash_terminates(s):
-                st["nonterminating_in_bash_too"] += 1
+                st["nonterminating_in_bash_too_or_inconclusive"] += 1
                 continue
             v = {"input": {"script": s[:4000], "via": "vbrush -c"}, "why": "no exit within 10 s although bash finishes"}
             if kid:
@@ -789,8 +806,13 @@ def explore(ctx, rng, scale):
             specv.append(v)
         elif r[0] == "S":
             st["signals"] += 1
-            specv.append({"input": {"script": s[:4000], "via": "vbrush -c"}, "why": "terminated by signal %d" % r[1]})
+            v = {"input": {"script": s[:4000], "via": "vbrush -c"}, "why": "terminated by signal %d" % r[1]}
+            kid = known_hang(s) if r[1] == 6 else None     # SIGABRT: the address-space limit was hit by a runaway loop
+            if kid:
+                v["known"] = kid
+            specv.append(v)
     stats["process"] = st
+    tp.append(time.time())
     # (3) editor entry points: highlighting, completion, prompt expansion
     lines, prompts = G.editor_lines(rng, scale)
     api_cases = [["hlall", l] for l in lines] + [["completeall", l] for l in lines[: max(20, len(lines) // 6)]] + [["prompt", p] for p in prompts]
@@ -818,16 +840,63 @@ def explore(ctx, rng, scale):
                 v["known"] = kid
             specv.append(v)
     stats["editor"] = st
+    tp.append(time.time())
+    stats["phase_s"] = [round(b - a) for a, b in zip(tp, tp[1:])]
     return evals, specv, stats
+
+
+# ------------------------------------------------------------------ in-Coq cross-check over several entries at once
+
+def coq_eval_multi(pairs, timeout=900):
+    """like core.coq_eval, for (entry, case) pairs of different entries in one batch of coqc processes"""
+    def lst(x):
+        return "[" + ";".join("%d%%N" % ord(ch) for ch in x) + "]"
+    os.makedirs(core.CACHE, exist_ok=True)
+    nch = min(core.NPROC, 8, len(pairs)) or 1
+    chunks = [pairs[i::nch] for i in range(nch)]
+    procs = []
+    for k, ch in enumerate(chunks):
+        path = os.path.join(core.CACHE, "c01x_%d_%d.v" % (os.getpid(), k))
+        with open(path, "w") as f:
+            f.write("From BV Require Import Base.Prelude Dispatch.\nSet Printing Width 2000000.\nSet Printing Depth 10000000.\n")
+            for entry, c in ch:
+                f.write("Eval vm_compute in (dispatch %s %s).\n" % (lst(entry), "[" + ";".join(lst(x) for x in c) + "]"))
+        procs.append((path, subprocess.Popen(["coqc", "-noglob", "-Q", os.path.join(core.COQ, "theories"), "BV", path],
+                                             stdout=subprocess.PIPE, stderr=subprocess.STDOUT, cwd=core.CACHE)))
+    per = []
+    for path, p in procs:
+        o, _ = p.communicate(timeout=timeout)
+        per.append(core.parse_coq_lists(o.decode()))
+        for ext in (".v", ".vo", ".vok", ".vos", ".glob"):
+            try:
+                os.remove(path[:-2] + ext)
+            except OSError:
+                pass
+        try:
+            os.remove(os.path.join(core.CACHE, "." + os.path.basename(path)[:-2] + ".aux"))
+        except OSError:
+            pass
+    res = [None] * len(pairs)
+    for k, got in enumerate(per):
+        for j, v in enumerate(got):
+            idx = k + j * nch
+            if idx < len(res):
+                res[idx] = v
+    return res
 
 
 # ------------------------------------------------------------------ driver entry points
 
 def run(ctx):
+    import time
     rng = ctx.rng
+    t0 = time.time()
     cores = build_cores(ctx, rng)
     evals, mism, specv, stats, xcheck = run_cores(ctx, cores)
-    e2, sv2, st2 = explore(ctx, rng, 1 if ctx.quick else 6)
+    t1 = time.time()
+    e2, sv2, st2 = explore(ctx, rng, 2 if ctx.quick else 8)
+    t2 = time.time()
+    ctx.notes.append("phase seconds: cores %.0f, exploration %.0f (%s)" % (t1 - t0, t2 - t1, st2.get("phase_s")))
     evals += e2
     specv += sv2
     # extraction cross-check inside Coq
@@ -835,14 +904,16 @@ def run(ctx):
     for entry, mc in xcheck:
         by_entry.setdefault(entry, []).append(mc)
     agree = total = 0
-    for entry, mcs in by_entry.items():
-        ce = ctx.coq_eval(entry, mcs)
-        mm = ctx.model(entry, mcs)
-        for a, b, mc in zip(ce, mm, mcs):
-            total += 1
-            if a != b:
-                raise core.CheckBroken("extracted runner and vm_compute disagree on %s %r: %r vs %r" % (entry, mc, a, b))
-            agree += 1
+    pairs = [(entry, mc) for entry in sorted(by_entry) for mc in by_entry[entry]]
+    ce = coq_eval_multi(pairs)
+    for (entry, mc), a in zip(pairs, ce):
+        b = ctx.model(entry, [mc])[0]
+        total += 1
+        if a != b:
+            raise core.CheckBroken("extracted runner and vm_compute disagree on %s %r: %r vs %r" % (entry, mc, a, b))
+        agree += 1
+    t3 = time.time()
+    ctx.notes.append("extraction cross-check %.0f s" % (t3 - t2))
     nontriv = sum(s["nontrivial"] for s in stats.values())
     samples = []
     for c in cores:
